@@ -6,8 +6,8 @@ sys.path.insert(0, os.path.join(ROOT, "lib"))
 import propcfg
 
 LEVEL = {
- "C01": ("Machine-checked theorems over the final Gallina models. (1) Entry points: Issuer::encode (disclosure fold on string paths with random insertion positions, decoys when requested, shuffle of the top-level digest list, _sd_alg, cnf, signing, '~' serialisation) followed by Holder::verify (split, JWT decode, _sd_alg check, complete restore_disclosures with pass loop, duplicate and structure checks, removal of bookkeeping): for every claims object, every non-empty path list on which marking succeeds, distinct salts, any positions, fresh distinct decoys, any shuffle permutation, with or without holder key, encode succeeds and Holder::verify returns the issuer's header and exactly the original claims (+cnf). (2) Every valid marking (paths resolve, descendants before ancestors, no repeats) is accepted (C14_valid_marking_accepted). (3) The same round trip for the fold + restore alone on arbitrary (non-object) claims. Tied to /repo by a differential run in which the model must reproduce the library's token exactly from the read-back random choices and agree with Holder::verify, with the oracle claims == original (+cnf) and paths == marked paths.",
-         "partial: the path component (one path per marked claim, in the theorem only membership/structure via restore_full_spec) are carried by the correspondence run and its oracle; premises: injective hash, decode inverts encode, '~'-free base64url/JWT, the JWT layer returns what was signed (idealised primitives, stated as hypotheses, no axioms)"),
+ "C01": ("Machine-checked theorems over the final Gallina models. (1) Entry points: Issuer::encode (disclosure fold on string paths with random insertion positions, decoys when requested, shuffle of the top-level digest list, _sd_alg, cnf, signing, '~' serialisation) followed by Holder::verify (split, JWT decode, _sd_alg check, complete restore_disclosures with pass loop, duplicate and structure checks, removal of bookkeeping): for every claims object, every non-empty path list on which marking succeeds, distinct salts, any positions, fresh distinct decoys, any shuffle permutation, with or without holder key, encode succeeds and Holder::verify returns the issuer's header and exactly the original claims (+cnf), and the reported path list is a permutation of the issuer's disclosures in which the i-th disclosure carries the rendered address of the i-th issuer path (C01_encode_then_holder_verify_paths; NodePath tracked through marking, root post-processing and every restore pass). (2) Every valid marking (paths resolve, descendants before ancestors, no repeats) is accepted (C14_valid_marking_accepted). (3) The same round trip for the fold + restore alone on arbitrary (non-object) claims. Tied to /repo by a differential run in which the model must reproduce the library's token exactly from the read-back random choices and agree with Holder::verify, with the oracle claims == original (+cnf) and paths == marked paths.",
+         "premises: injective hash, decode inverts encode, '~'-free base64url/JWT, the JWT layer returns what was signed (idealised primitives, stated as hypotheses, no axioms)"),
  "C02": ("Machine-checked theorems about the Gallina model of Holder::redact/build: redacting a non-disclosable path changes nothing, the result depends on the set of redactions only, every disclosure that is neither redacted nor below a redacted disclosable claim is presented; tied to /repo by a differential run (library- and reference-issued tokens, bound and unbound) in which the model must reproduce the presentation string and the verifier's claims must equal the original minus the withheld claims.",
          "partial: the end-to-end equation verifier(build(redact R)) = project is exercised by the correspondence run; the theorems are about the holder's selection; composition with the restore theorems (C03) is pending"),
  "C04": ("Machine-checked exact characterisation (iff) of when the Gallina model of decode accepts (parse, configured algorithm, key family table, signature oracle, object payload, claim checks), the corollary that under an ideal signature oracle only the exact issued token, the configured algorithm and a key of the right family are accepted, and that holder and verifier fail whenever the first segment does not decode; tied to /repo by a differential run over all 13 algorithms with per-position mutations, the full key x algorithm matrix and algorithm-confusion tokens.",
